@@ -155,7 +155,10 @@ def lex_float(interp, v):
                 raise Unsupported("float() of %r" % (v,))
         return tokens_to_int(interp, toks)
     if isinstance(v, SStr):
-        raise Unsupported("float() of an unconstrained symbolic string")
+        # arbitrary text: float() succeeds with some float, or raises ValueError (assumed raise-set)
+        if interp.ctx.choose(2, 'float(str)_succeeds'):
+            return S.SOpaque(interp.ctx._fresh_name('float_of_str'), float)
+        raise ValueError("could not convert string to float")
     raise Unsupported("float() of %r" % (v,))
 
 
